@@ -3,7 +3,7 @@
 use serde_json::Value;
 
 use crate::fw::{Batch, CheckSpec, Tier, drive};
-use crate::{Args, eng_codec, eng_disk, eng_hist, eng_rdf, eng_sched, eng_snap, eng_store, eng_txm};
+use crate::{Args, eng_codec, eng_disk, eng_hist, eng_rdf, eng_sched, eng_snap, eng_store, eng_txm, eng_vec};
 
 const REAL_TXM: &[&str] = &["grafeo_engine::transaction::TransactionManager (all of manager.rs)"];
 
@@ -14,6 +14,7 @@ pub fn run_check(id: &str, args: &Args) -> i32 {
         "C14" => c14(args),
         "C20" => c20(args),
         "C13" => c13(args),
+        "C18" => c18(args),
         "C07" => c07(args),
         "C15" => c15(args),
         "C01" => c_hist(args, "C01"),
@@ -313,6 +314,27 @@ fn c07(args: &Args) -> i32 {
     drive(batch, &|seed, i| eng_snap::run_one(seed, i, thorough), Some(&eng_snap::minimise), &mut |_| {})
 }
 
+fn c18(args: &Args) -> i32 {
+    let thorough = args.tier == Tier::Thorough;
+    let spec = CheckSpec {
+        property: "C18",
+        check_name: "C18",
+        level: "exploration",
+        engine: "VEC",
+        rule: "histories of insert / re-insert of the same id / remove / search / search_with_ef / batch_search over HnswIndex::with_seed with per-run dimension (1,2,3,7,8,9,33), metric (4), m, ef_construction, ef (1..128), magnitude scale (1e-3..1e6), zero vectors and duplicates; after every search: at most k results, distinct ids, every id currently present in the id->vector model, distance equal to the scalar definition computed in f64 (relative tolerance 1e-3), non-decreasing order, batch = one-by-one, non-empty on a non-empty index. Non-trivial = at least one search and >=3 steps; distinct = distinct (configuration, operation list)".into(),
+        real: vec!["grafeo_core::index::vector::{HnswIndex, distance kernels as called by it}"],
+        stub: vec!["std HashMap/HashSet inside hnsw.rs replaced by fixed-hasher containers (cfg(grafeo_verif)) so that entry-point selection after a removal replays exactly"],
+        assumptions: vec!["cosine distance to/from a zero vector is undefined and not judged".into()],
+        unchecked: vec![
+            "'returns k whenever at least k are reachable': reachability inside the HNSW graph cannot be computed from outside; the ratio returned/min(k,len) is recorded as a probe, only 'non-empty' is asserted".into(),
+            "SIMD kernels = scalar definitions, quantiser error bounds, exact brute_force_knn optimality: pure functions of their inputs (not simulation targets)".into(),
+            "GrafeoDB::vector_search after graph mutations (the index is built once and not maintained)".into(),
+        ],
+    };
+    let batch = Batch { spec, tier: args.tier, seed: args.seed, runs: runs(args, 20_000, 1_000_000), workers: args.workers };
+    drive(batch, &|seed, _i| eng_vec::run_one(seed, thorough), Some(&eng_vec::minimise), &mut |_| {})
+}
+
 pub fn replay_file(path: &str) -> i32 {
     let text = match std::fs::read_to_string(path) {
         Ok(t) => t,
@@ -338,6 +360,7 @@ pub fn replay_file(path: &str) -> i32 {
         Some("SCHED") => eng_sched::replay(rep, &prop),
         Some("HIST") => eng_hist::replay(rep),
         Some("RDF") => eng_rdf::replay(rep),
+        Some("VEC") => eng_vec::replay(rep),
         Some("SNAP") => eng_snap::replay(rep),
         Some("CODEC") => eng_codec::replay(rep),
         other => {
